@@ -62,6 +62,8 @@ func Register[G any](name string, p *participle.Parser[G], elided []string, samp
 			ast, err = p.Parse(filename, bytes.NewReader(input), opts...)
 		case "namedreader":
 			ast, err = p.Parse(filename, NamedReader{bytes.NewReader(input)}, opts...)
+		case "dataerr":
+			ast, err = p.Parse(filename, iotest.DataErrReader(bytes.NewReader(input)), opts...)
 		case "onebyte":
 			ast, err = p.Parse(filename, iotest.OneByteReader(bytes.NewReader(input)), opts...)
 		case "slowreader":
